@@ -82,6 +82,9 @@ pub fn check(c: &Case2, st: &mut Stats, cfg: &Cfg, bin: &std::path::Path, hv: &s
     if m.flags.multi_operand_neg_recip > 0 {
         st.class("multi-operand 흣/흡");
     }
+    if m.out.len() + m.err.len() > 4000 && !m.out.is_ascii() | !m.err.is_ascii() {
+        st.class("more than 4 KB of multi-byte output");
+    }
     let has_effect = !m.out.is_empty() || !m.err.is_empty() || matches!(m.end, End::Stop(Stop::Exit(_)));
     let optimiser_active = stacks_above3.len() >= 2 || m.steps > 1;
     match m.end {
@@ -92,9 +95,11 @@ pub fn check(c: &Case2, st: &mut Stats, cfg: &Cfg, bin: &std::path::Path, hv: &s
         End::Normal | End::Stop(Stop::Exit(_)) | End::Stop(Stop::Encoding(_)) => {
             let mut runs = Vec::new();
             for level in 0u8..=2 {
+                // pre-execution cost grows with the square of the program length: very long programs get a CPU limit to match
+                let cpu = if c.0.cmds.len() > 3000 { 90 } else { 5 };
                 let r = match proc::run_hyeong(bin, scratch, &text, level, c.0.stdin.as_bytes(), |o| {
-                    o.cpu_secs = Some(5);
-                    o.wall = Duration::from_secs(90);
+                    o.cpu_secs = Some(cpu);
+                    o.wall = Duration::from_secs(90 + 4 * cpu);
                     o.out_cap = m.out.len() + (256 << 10);
                 }) {
                     Ok(r) => r,
@@ -227,6 +232,48 @@ pub fn profile(max_len: usize) -> Profile {
     Profile { many_stacks: true, ..Profile::general(max_len) }
 }
 
+/// straight-line programs that write kilobytes of multi-byte characters without reading input: at level 2 all of it is produced
+/// during pre-execution and re-emitted before the residual program runs (sizes around 4 KiB / 8 KiB / 64 KiB of UTF-8)
+fn big_output_strategy() -> BoxedStrategy<Case2> {
+    let ch = prop::sample::select(vec![(233usize, 2usize), (2048, 3), (0xAC00, 3), (0x1F600, 4), (0x10000, 4)]);
+    (ch, prop::sample::select(vec![4096usize, 8192, 65536]), -3i64..=3, 0usize..4, 1usize..=2, any::<bool>())
+        .prop_map(|((cp, len), boundary, off, ascii, target, then_read)| {
+            use crate::refparse::RCmd;
+            // the level-2 pre-execution is quadratic in the number of commands (it snapshots the state per command):
+            // keep the largest programs at ~17 k commands
+            let boundary = if boundary == 65536 && len < 4 { 8192 } else { boundary };
+            let n = ((boundary / len) as i64 + off).max(1) as usize;
+            let mut cmds = Vec::new();
+            for _ in 0..ascii {
+                cmds.push(RCmd::new(0, 5, 13));
+                cmds.push(RCmd::new(1, 1, target));
+            }
+            // value = cp via a product of small factors: cp = a * b (+ c)
+            let (a, b) = (1..=64usize).rev().find(|a| cp % a == 0 && cp / a <= 3000).map(|a| (a, cp / a)).unwrap_or((1, cp.min(3000)));
+            let mut left = n;
+            while left > 0 {
+                let k = left.min(40);
+                cmds.push(RCmd::new(0, a, b));
+                if a * b != cp {
+                    // unreachable for the table above; keep the value anyway
+                }
+                if k > 1 {
+                    cmds.push(RCmd::new(5, k - 1, 3));
+                }
+                for _ in 0..k {
+                    cmds.push(RCmd::new(1, 1, target));
+                }
+                left -= k;
+            }
+            if then_read {
+                cmds.push(RCmd::new(5, 1, 0));
+                cmds.push(RCmd::new(1, 1, 1));
+            }
+            Case2(ProgCase { cmds, stdin: "xy\n".to_string() })
+        })
+        .boxed()
+}
+
 pub fn run(ctx: &Ctx, out: &mut Outcome) {
     let t = ctx.tier;
     let bin = ctx.hyeong_bin();
@@ -234,6 +281,11 @@ pub fn run(ctx: &Ctx, out: &mut Outcome) {
     let scratch = ctx.scratch.clone();
     let cfg = Cfg { budget: t.pick(3000, 10000), child_steps: t.pick(4000, 20000) };
     let max_len = t.pick(40, 80);
+    {
+        let (bin, hv, scratch) = (bin.clone(), hv.clone(), scratch.clone());
+        let cfg = Cfg { budget: 400_000, child_steps: 400_000 };
+        search::<Case2>(ctx, out, "big-output", t.pick(48, 400), &big_output_strategy, &move |c, st| check(c, st, &cfg, &bin, &hv, &scratch));
+    }
     search::<Case2>(ctx, out, "general", t.pick(12_000, 70_000), &move || prog_case(&profile(max_len)).prop_map(Case2).boxed(), &move |c, st| check(c, st, &cfg, &bin, &hv, &scratch));
 }
 
@@ -259,6 +311,7 @@ pub fn gates(out: &Outcome, tier: Tier) -> Vec<String> {
         ("end: exit 0", 100),
         ("end: exit 1", 100),
         ("encoding error compared across levels", 5),
+        ("more than 4 KB of multi-byte output", 25),
     ] {
         if out.stats.get(class) < min * m {
             v.push(format!("class '{}' has {} cases, need >= {}", class, out.stats.get(class), min * m));
